@@ -54,12 +54,20 @@ def _upd(screening, dynamic):
     return lambda m=None: uc.run_update(m, screening, dynamic, prefixes=("C10.",))
 
 
+def _solve_unit(m=None):
+    from checks import c11
+    r = c11.run_seed(m)
+    r["obls"] = [o for o in r["obls"] if o.name.startswith("C10.") or not o.name.startswith("C")]
+    return r
+
+
 def units():
     U = "tdgl.solver.solver:TDGLSolver.update"
     return [Unit("update[no screening, static A]", U, _upd(False, False), props=["C10"], timeout=900),
             Unit("update[no screening, dynamic A]", U, _upd(False, True), props=["C10"], timeout=900),
             Unit("update[screening, static A]", U, _upd(True, False), props=["C10"], timeout=900),
             Unit("update[screening, dynamic A]", U, _upd(True, True), props=["C10"], timeout=900),
+            Unit("solve[hands over the state]", "tdgl.solver.solver:TDGLSolver.solve", _solve_unit, props=["C10", "C11"], timeout=300),
             Unit("set_link_exponents[fix_psi=True]", F + "MeshOperators.set_link_exponents", run_pinned, props=["C10", "C06"], timeout=900),
             Unit("set_link_exponents[fix_psi=False]", F + "MeshOperators.set_link_exponents", run_free, props=["C10"], timeout=900)]
 
@@ -136,6 +144,35 @@ def replay_trigger(unit, obl):
                             induced_vector_potential=res.A_induced, applied_vector_potential=res.A_applied)
                 dt = res.dt
                 state["time"] += dt
+    # one solver object solved twice with a time-dependent field: at every update of BOTH runs the operators hold the potential of that step
+    try:
+        import tempfile as _tf
+        with _tf.TemporaryDirectory() as td_:
+            field2 = LinearRamp(tmin=0.5, tmax=1.5) * ConstantField(1.0, field_units="mT", length_units="um") + ConstantField(0.2, field_units="mT", length_units="um")
+            o2 = tdgl.SolverOptions(solve_time=1.0, adaptive=False, dt_init=2e-2, field_units="mT", output_file=os.path.join(td_, "twice.h5"), save_every=1000)
+            s2 = TDGLSolver(dev, o2, applied_vector_potential=field2)
+            real_update = s2.update
+            stale = []
+
+            def spy_update(*a, **kw):
+                res = real_update(*a, **kw)
+                fresh = MeshOperators(dev.mesh, None, fixed_sites=np.array([], dtype=np.int64), fix_psi=False)
+                fresh.set_link_exponents(res.A_applied)
+                err = abs(s2.operators.psi_laplacian - fresh.psi_laplacian).max()
+                if err > 1e-12:
+                    stale.append(float(err))
+                return res
+            s2.update = spy_update
+            for run_no in (1, 2):
+                del stale[:]
+                s2.solve()
+                n += 1
+                if stale:
+                    bad.append(dict(what="operators in use differ from operators rebuilt for the potential of the step", run_on_the_same_solver_object=run_no,
+                                    steps_with_stale_operators=len(stale), max_abs_diff_laplacian=max(stale)))
+                    break
+    except Exception as e:  # noqa
+        bad.append(dict(what=f"solving twice on one solver object raised {type(e).__name__}: {str(e)[:120]}"))
     # screening: at EVERY Euler step inside the self-consistency loop the operators must hold applied + induced potential of that
     # iteration.  The real update() is driven; adaptive_euler_step is wrapped (on the instance) and reads the caller's locals.
     import sys as _sys
